@@ -21,6 +21,16 @@
    existence), no system call ever creates/removes/modifies an object elsewhere (history variable `tch`;
    the one exception is the temporary file the extractor creates next to T when T itself is written).
 
+   Reuse: one Extractor VALUE may serve several Extract calls, each with its own Path (target).  What survives
+   in the value between calls is part of the state: the list of deferred updates (`defs`) -- doUpdates stops at
+   the first update that fails (a later entry removed the directory and the archive then broke off: a TRUNCATED
+   file body, content "trunc") and leaves the list behind; the next call must start from an empty list (Extract
+   resets it once the first header has been read).  Action Reuse starts the next call on the file system the
+   previous one left (whatever its outcome), after the owner of the previous target has changed the mode and
+   mtime of everything in it (Age) -- so that a stale update re-applied by a later call is a visible change --
+   and Confined / NoStrayTouch are stated for every call with respect to ITS target (w.tgt) and the file
+   system at ITS start (fs0).  "Ctl_KeepDeferred" \in Devs is a control: the list is not reset.
+
    Devs = {}: a deferred directory update is applied only if the path still is a directory (ideal; this is
    what fixes/C38-deferred-meta-follows-symlink.diff implements).  "Dev_C38_DeferredMetaByPath" \in Devs:
    as built, the update is applied to whatever the path names when Extract returns -- after a later entry
@@ -34,17 +44,20 @@ CONSTANTS Names,       \* entry names offered to the extractor: sequences of com
           Variants,    \* initial contents of the target (see InitFS)
           HarmTypes,   \* entry types offered with a name the extractor must refuse (see HarmBodies)
           MaxEntries,
+          Reuse,       \* [calls, targets, names, types, max, contents]: Extract calls per Extractor value; targets, entry
+                       \* names, body types and entries per archive of the calls after the first; file contents offered
           Devs
 
-VARIABLES w,     \* the extractor run: [fs, tch, defs, rootDir, rootName, n, err, done]
-          fs0    \* the file system before Extract
+VARIABLES w,     \* the extractor value and its current call: [fs, tch, defs, rootDir, rootName, n, err, done, tgt, call]
+          fs0    \* the file system before the current Extract call
 vars == <<w, fs0>>
 
-M755 == 493  M700 == 448  M644 == 420  M600 == 384  M777 == 511
+M755 == 493  M700 == 448  M644 == 420  M600 == 384  M777 == 511  M711 == 457  M640 == 416
 
 Root == <<>>
 W == <<"w">>
-T == <<"w", "t">>
+T == <<"w", "t">>                 \* the target of the first call
+U == <<"w", "u">>                 \* another target (absent in every initial file system)
 TMP == "#tmp"                     \* the name os.CreateTemp picks (never clashes: names are single letters)
 
 Dir(m, t)     == [k |-> "dir",  c |-> "", m |-> m, t |-> t, tg |-> ""]
@@ -229,6 +242,8 @@ ExtractFile(ww, p, h) ==
   IN IF a.e \notin {"", "ENOENT"} THEN a
      ELSE LET b == CreateTemp(a.w, Parent(p), h.c)
           IN IF b.e # "" THEN b
+             \* the archive breaks off inside the body: copyWithProgress fails, the temporary file is removed
+             ELSE IF h.c = "trunc" THEN Er(Remove(b.w, Append(Parent(p), TMP)).w, "trunc")
              ELSE LET c == Rename(b.w, Append(Parent(p), TMP), p)
                   IN IF c.e = "" THEN c
                      ELSE Er(Remove(b.w, Append(Parent(p), TMP)).w, c.e)
@@ -254,29 +269,33 @@ NameCheck(ww, name) ==
   ELSE IF ~(Len(name) >= 2 /\ name[1] = ww.rootName) THEN [e |-> "root", out |-> <<>>]
   ELSE LET rel == Tail(name)
            \* Lstat of every intermediate component T/rel[1..i], i < Len(rel)
-           errAt(i) == LET st == Lstat(ww.fs, T \o SubSeq(rel, 1, i))
+           errAt(i) == LET st == Lstat(ww.fs, ww.tgt \o SubSeq(rel, 1, i))
                        IN IF st.e # "" THEN st.e
                           ELSE IF st.n.k = "link" THEN "trav"           \* errTraverseSymlink
                           ELSE IF st.n.k # "dir" THEN "nondir" ELSE ""
            bad == {i \in 1..(Len(rel) - 1) : errAt(i) # ""}
-       IN IF bad = {} THEN [e |-> "", out |-> T \o rel]
+       IN IF bad = {} THEN [e |-> "", out |-> ww.tgt \o rel]
           ELSE [e |-> errAt(CHOOSE i \in bad : \A j \in bad : i <= j), out |-> <<>>]
 
 Fail(ww, e, devs) == [DoUpdates(ww, Len(ww.defs), devs) EXCEPT !.err = e, !.done = TRUE]
 After(r, devs) == IF r.e # "" THEN Fail(r.w, r.e, devs) ELSE [r.w EXCEPT !.n = @ + 1]
 
-\* the first header
-StepFirst(ww, h, devs) ==
-  IF HasNul(h.name) THEN Fail(ww, "tar", devs)
-  ELSE IF Len(h.name) > 1 \/ BadComp(h.name[1]) THEN Fail(ww, "root", devs)
-  ELSE LET w1 == [ww EXCEPT !.rootName = h.name[1]]
-       IN CASE h.type = "dir" -> After(ExtractBody([w1 EXCEPT !.rootDir = TRUE], T, h, devs), devs)
-            [] h.type \in {"file", "link"} ->
-                 LET st == Lstat(w1.fs, T)
-                 IN IF st.e \notin {"", "ENOENT"} THEN Fail(w1, st.e, devs)
-                    ELSE After(ExtractBody(w1, IF st.e = "" /\ st.n.k = "dir" THEN Append(T, h.name[1]) ELSE T,
-                                           h, devs), devs)
-            [] OTHER -> Fail(w1, "type", devs)
+\* the first header.  A header that cannot be read makes Extract return before doUpdates is installed; after
+\* that the list of deferred updates is reset -- whatever an earlier call on this Extractor value left in it
+FailEarly(ww, e) == [ww EXCEPT !.err = e, !.done = TRUE]
+StepFirst(w0, h, devs) ==
+  IF HasNul(h.name) THEN FailEarly(w0, "tar")
+  ELSE LET ww == IF "Ctl_KeepDeferred" \in devs THEN w0 ELSE [w0 EXCEPT !.defs = <<>>]
+           tg == ww.tgt
+       IN IF Len(h.name) > 1 \/ BadComp(h.name[1]) THEN Fail(ww, "root", devs)
+          ELSE LET w1 == [ww EXCEPT !.rootName = h.name[1]]
+               IN CASE h.type = "dir" -> After(ExtractBody([w1 EXCEPT !.rootDir = TRUE], tg, h, devs), devs)
+                    [] h.type \in {"file", "link"} ->
+                         LET st == Lstat(w1.fs, tg)
+                         IN IF st.e \notin {"", "ENOENT"} THEN Fail(w1, st.e, devs)
+                            ELSE After(ExtractBody(w1, IF st.e = "" /\ st.n.k = "dir" THEN Append(tg, h.name[1]) ELSE tg,
+                                                   h, devs), devs)
+                    [] OTHER -> Fail(w1, "type", devs)
 \* every later header
 StepMore(ww, h, devs) ==
   LET nc == NameCheck(ww, h.name)
@@ -301,13 +320,23 @@ InitFS(v) ==
     [] v = "tlink"   -> Base @@ (T :> Link("abs_o", "p"))
     [] v = "tfile"   -> Base @@ (T :> File("B", M644, "p"))
 NewRun(v) == [fs |-> InitFS(v), tch |-> {}, defs |-> <<>>, rootDir |-> FALSE, rootName |-> "", n |-> 0,
-              err |-> "", done |-> FALSE]
+              err |-> "", done |-> FALSE, tgt |-> T, call |-> 1]
+
+(* the next Extract call on the same Extractor value: the deferred updates it holds survive (nothing else does);
+   before it the owner of the previous target has changed mode and mtime of every object at or below it      *)
+Age(n) == CASE n.k = "dir"  -> [n EXCEPT !.m = M711, !.t = "q"]
+            [] n.k = "file" -> [n EXCEPT !.m = M640, !.t = "q"]
+            [] OTHER        -> [n EXCEPT !.t = "q"]
+AgeFS(fs, t) == [p \in DOMAIN fs |-> IF IsPrefix(t, p) THEN Age(fs[p]) ELSE fs[p]]
+Again(ww, t) == [fs |-> AgeFS(ww.fs, ww.tgt), tch |-> {}, defs |-> ww.defs, rootDir |-> FALSE, rootName |-> "", n |-> 0,
+                 err |-> "", done |-> FALSE, tgt |-> t, call |-> ww.call + 1]
 
 -----------------------------------------------------------------------------
 (* ---------- entries ---------- *)
 Hdr(name, type, link, mode, t) == [name |-> name, type |-> type, link |-> link, mode |-> mode, t |-> t, c |-> "X"]
 Bodies(name) ==
-  {Hdr(name, ty, "", mt[1], mt[2]) : ty \in {"dir", "file"}, mt \in DirMeta}
+  {Hdr(name, "dir", "", mt[1], mt[2]) : mt \in DirMeta}
+  \cup {[Hdr(name, "file", "", mt[1], mt[2]) EXCEPT !.c = c] : mt \in DirMeta, c \in Reuse.contents}   \* "X", "trunc"
   \cup {Hdr(name, "link", l, 0, t) : l \in LinkTargets, t \in LinkTimes}
   \cup {Hdr(name, "other", "", 0, "z")}
 \* an entry that the extractor must refuse on its name alone is offered with the bodies that would do most
@@ -317,29 +346,40 @@ HarmBodies(name) == {h \in {Hdr(name, "dir", "", M700, "t1"), Hdr(name, "file", 
 
 Refused(ww, name) == IF ww.n = 0 THEN HasNul(name) \/ Len(name) > 1 \/ BadComp(name[1])
                      ELSE NameCheck(ww, name).e # ""
-Offer(ww) == UNION {IF Refused(ww, name) THEN HarmBodies(name) ELSE Bodies(name) : name \in Names}
+\* the calls after the first get short archives of entries that carry metadata
+LaterBodies(name) == {h \in {Hdr(name, "dir", "", M700, "t1"), Hdr(name, "file", "", M700, "t1"),
+                              Hdr(name, "link", "abs_o", 0, "t1")} : h.type \in Reuse.types}
+Offer(ww) == IF ww.call = 1
+             THEN UNION {IF Refused(ww, name) THEN HarmBodies(name) ELSE Bodies(name) : name \in Names}
+             ELSE UNION {LaterBodies(name) : name \in Reuse.names}
+MaxEntriesAt(ww) == IF ww.call = 1 THEN MaxEntries ELSE Reuse.max
 
 -----------------------------------------------------------------------------
 Init == /\ \E v \in Variants : w = NewRun(v) /\ fs0 = InitFS(v)
-Entry == /\ ~w.done /\ w.n < MaxEntries
+Entry == /\ ~w.done /\ w.n < MaxEntriesAt(w)
          /\ \E h \in Offer(w) : w' = Step(w, h, Devs)
          /\ UNCHANGED fs0
 End == /\ ~w.done
        /\ w' = Finish(w, Devs)
        /\ UNCHANGED fs0
-Next == Entry \/ End
+ReuseX == /\ w.done /\ w.call < Reuse.calls
+          /\ \E t \in Reuse.targets : w' = Again(w, t) /\ fs0' = AgeFS(w.fs, w.tgt)
+Next == Entry \/ End \/ ReuseX
 Spec == Init /\ [][Next]_vars
 
 -----------------------------------------------------------------------------
 (* ---------- the property ---------- *)
-Inside(p) == IsPrefix(T, p)
-\* everything that is not at or below T; creating/replacing T itself necessarily updates its parent's mtime
-Outside(fs) == [p \in {q \in DOMAIN fs : ~Inside(q)} |-> IF p = W THEN [fs[p] EXCEPT !.t = "-"] ELSE fs[p]]
+\* with respect to the target of the CURRENT call
+Inside(p) == IsPrefix(w.tgt, p)
+\* everything that is not at or below the target; creating/replacing the target itself necessarily updates its parent's mtime
+Outside(fs) == [p \in {q \in DOMAIN fs : ~Inside(q)} |-> IF p = Parent(w.tgt) THEN [fs[p] EXCEPT !.t = "-"] ELSE fs[p]]
 
 Confined      == Outside(w.fs) = Outside(fs0)
-NoStrayTouch  == \A p \in w.tch : Inside(p) \/ p = Append(W, TMP)
+NoStrayTouch  == \A p \in w.tch : Inside(p) \/ p = Append(Parent(w.tgt), TMP)
 NoTempLeft    == \A p \in DOMAIN w.fs : Last(<<"">> \o p) # TMP
 \* an extraction that reports success has applied (or dropped) every deferred update
 DoneClean     == w.done /\ w.err = "" => w.defs = <<>>
+\* once a call has got past its first header, every update the Extractor value holds belongs to THIS call's target
+DefsInside    == w.n > 0 => \A i \in 1..Len(w.defs) : Inside(w.defs[i].path)
 WellFormed    == \A p \in DOMAIN w.fs : p = Root \/ (Parent(p) \in DOMAIN w.fs /\ w.fs[Parent(p)].k = "dir")
 =============================================================================
